@@ -422,6 +422,35 @@ func c03Multi(r *ck.Run, cfg gw.Opts, ci int) {
 			Req: func(w *World) *gw.Req {
 				return NewReq("POST", "/"+w.Bucket, "delete", nil, []byte("<Delete><Object><Key>dir/obj2</Key></Object><Object><Key>obj1</Key></Object></Delete>"))
 			}},
+		{Name: "DeleteObjects allow-all-deny-one, denied key first", ProtectedPaths: []string{"root:bk-main/obj1"},
+			Stmts: func(w *World) []refStmt {
+				return []refStmt{{"Allow", []string{"usr3"}, []string{"s3:*"}, both(w.Bucket)}, {"Deny", []string{"usr3"}, []string{"s3:DeleteObject"}, []string{w.Bucket + "/obj1"}}}
+			},
+			Req: func(w *World) *gw.Req {
+				return NewReq("POST", "/"+w.Bucket, "delete", nil, []byte("<Delete><Object><Key>obj1</Key></Object><Object><Key>dir/obj2</Key></Object></Delete>"))
+			}},
+		{Name: "DeleteObjects allow-all-deny-one, denied key in the middle", ProtectedPaths: []string{"root:bk-main/obj1"},
+			Stmts: func(w *World) []refStmt {
+				return []refStmt{{"Allow", []string{"usr3"}, []string{"s3:*"}, both(w.Bucket)}, {"Deny", []string{"usr3"}, []string{"s3:DeleteObject"}, []string{w.Bucket + "/obj1"}}}
+			},
+			Req: func(w *World) *gw.Req {
+				return NewReq("POST", "/"+w.Bucket, "delete", nil, []byte("<Delete><Object><Key>nosuchkey</Key></Object><Object><Key>obj1</Key></Object><Object><Key>dir/obj2</Key></Object></Delete>"))
+			}},
+		// the decision is taken on the name that is read: a source spelled with a doubly encoded separator
+		{Name: "CopyObject source-under-denied-prefix, separator doubly encoded", NoCanaryIn: "bk-main/stolen2",
+			Stmts: func(w *World) []refStmt {
+				return []refStmt{{"Allow", []string{"usr3"}, []string{"s3:*"}, both(w.Bucket)}, {"Deny", []string{"usr3"}, []string{"s3:GetObject"}, []string{w.Bucket + "/dir/*"}}}
+			},
+			Req: func(w *World) *gw.Req {
+				return NewReq("PUT", gw.ObjPath(w.Bucket, "stolen2"), "", H("x-amz-copy-source", w.Bucket+"/dir%252Fobj2"), nil)
+			}},
+		{Name: "CopyObject source-under-denied-prefix, separator encoded", NoCanaryIn: "bk-main/stolen3",
+			Stmts: func(w *World) []refStmt {
+				return []refStmt{{"Allow", []string{"usr3"}, []string{"s3:*"}, both(w.Bucket)}, {"Deny", []string{"usr3"}, []string{"s3:GetObject"}, []string{w.Bucket + "/dir/*"}}}
+			},
+			Req: func(w *World) *gw.Req {
+				return NewReq("PUT", gw.ObjPath(w.Bucket, "stolen3"), "", H("x-amz-copy-source", w.Bucket+"/dir%2Fobj2"), nil)
+			}},
 		{Name: "CopyObject source-in-other-tenant-bucket", NoCanaryIn: "bk-main/stolen",
 			Stmts: func(w *World) []refStmt {
 				return []refStmt{{"Allow", []string{"usr3"}, []string{"s3:*"}, both(w.Bucket)}}
@@ -528,7 +557,7 @@ func c03Multi(r *ck.Run, cfg gw.Opts, ci int) {
 			}
 			if strings.HasPrefix(k, "root:") {
 				data := readSnapFile(w, k)
-				if bytes.Contains(data, []byte(canaryOther)) || (mc.NoCanaryIn != "" && strings.HasSuffix(k, mc.NoCanaryIn) && bytes.Contains(data, []byte(canaryObj1))) {
+				if bytes.Contains(data, []byte(canaryOther)) || (mc.NoCanaryIn != "" && strings.HasSuffix(k, mc.NoCanaryIn) && (bytes.Contains(data, []byte(canaryObj1)) || bytes.Contains(data, []byte(canaryObj2)))) {
 					an = append(an, "unauthorised-source-copied")
 				}
 			}
